@@ -2,7 +2,7 @@
    (Gen/Total.v) and the general facts about isinstance-chain dispatch (C12). *)
 From Coq Require Import String List Bool.
 Import ListNotations.
-Require Import PV.Total.Dispatch PV.Gen.Total.
+Require Import PV.Total.Dispatch PV.Total.Emit PV.Gen.Total.
 Open Scope string_scope.
 
 (* a chain with a crashing fall-through is total exactly on the subclasses of its targets *)
@@ -95,3 +95,51 @@ Lemma codes_registry_wellformed :
   nodup_str registered_codes = true /\ mem_str "internal_error" registered_codes = true /\
   mem_str "invalid_annotation" registered_codes = true /\ 50 <= length registered_codes.
 Proof. vm_compute. repeat split; try reflexivity. repeat constructor. Qed.
+
+(* ---- show_error: the source still has the shape Total/Emit.v was written for ---- *)
+Lemma show_error_shape_pinned :
+  show_error_subscripts = pinned_subscripts /\ show_error_context_bounds = pinned_context_bounds /\
+  BinInt.Z.of_nat show_error_context_lines = CONTEXT_LINES.
+Proof. vm_compute. repeat split; reflexivity. Qed.
+
+(* ---- enum dispatch chains with a crashing else branch (every such chain of the package) ---- *)
+Definition members_of (e : string) : list string :=
+  match find (fun p => String.eqb (fst p) e) enum_members with
+  | Some p => snd p
+  | None => []
+  end%list.
+
+Definition chain_total (ch : string * string * string * string * list string) : bool :=
+  let '(_, _, _, e, handled) := ch in
+  negb (match members_of e with [] => true | _ => false end%list) && forallb (fun m => mem_str m handled) (members_of e).
+
+(* the one chain that does not enumerate its enum: the nested test of type_boolability in
+   _get_boolability_no_mvv (_get_type_boolability only returns boolable / type_always_true /
+   erroring_bool, and erroring_bool implies that bool(value) raised earlier) *)
+Definition chain_guard (ch : string * string * string * string * list string) : bool :=
+  let '(f, fn, subj, _, _) := ch in
+  String.eqb f "boolability.py" && String.eqb fn "_get_boolability_no_mvv" && String.eqb subj "type_boolability".
+
+Lemma enum_chains_total_partial : forall ch, In ch enum_chains -> chain_guard ch = false -> chain_total ch = true.
+Proof.
+  assert (G : forallb (fun ch => chain_guard ch || chain_total ch) enum_chains = true) by (vm_compute; reflexivity).
+  intros ch Hin Hg. rewrite forallb_forall in G. specialize (G ch Hin). rewrite Hg in G. exact G.
+Qed.
+
+Lemma enum_chains_guard_exact : forallb (fun ch => negb (chain_guard ch) || negb (chain_total ch)) enum_chains = true
+  /\ 4 <= length (filter (fun ch => negb (chain_guard ch)) enum_chains).
+Proof. split; [vm_compute; reflexivity|vm_compute; repeat constructor]. Qed.
+
+(* a total enum chain takes a branch for every member: the fall-through is dead *)
+Lemma chain_total_covers : forall f fn subj e handled m,
+  chain_total (f, fn, subj, e, handled) = true -> In m (members_of e) -> In m handled.
+Proof.
+  intros f fn subj e handled m H Hm. cbn in H. apply andb_true_iff in H. destruct H as [_ H].
+  rewrite forallb_forall in H. apply mem_str_In. apply H. exact Hm.
+Qed.
+
+Lemma bound_chain_total : forall c, In c bound_family -> crashes [] bound_chain_handled c = false.
+Proof.
+  assert (G : forallb (fun c => negb (crashes [] bound_chain_handled c)) bound_family = true) by (vm_compute; reflexivity).
+  intros c Hc. rewrite forallb_forall in G. specialize (G c Hc). destruct (crashes [] bound_chain_handled c); [discriminate|reflexivity].
+Qed.
